@@ -1719,6 +1719,13 @@ def run(ctx: core.Ctx):
                                                                 "bad_ref_catches", "delete_check_client", "local_uses_cas_result",
                                                                 "local_precheck_get_peeled")}
     ctx.extra_cov["fingerprints"] = ex.get("fingerprints")
+    sw = [ex.get("cas_result_used"), ex.get("new_object_checked"), ex.get("atomic_validates_old")]
+    if sw == [False, False, False]:
+        ctx.notes.append("source switches (useCas, checkNew, atomicOld) = off/off/off: Flags.coded = Flags.unrepaired, the "
+                         "_counterexample theorems describe the source (F5)")
+    else:
+        ctx.notes.append(f"source switches (useCas, checkNew, atomicOld) = {sw}: the source is (partly) repaired; the _of_useCas / "
+                         "_of_checkNew / _of_validation theorems apply to it, the _counterexample theorems describe the old behaviour")
     sd = ServerDir(ctx.scratch / "srv")
     _run_corpus(ctx, sd, ex)
     _stream_wire(ctx, sd, ctx.budget(1200))
